@@ -260,7 +260,11 @@ class workq:
         heapq.heappush(self.timeoutq, (job.timeout, job))
 
         if alternatives:
-            random.choice(alternatives).set(job)
+            ev = random.choice(alternatives)
+            # the waiter is served: take it off the list now, its greenlet may
+            # not get to run before the next job is pushed
+            self._waiters = [w for w in self._waiters if w[1] is not ev]
+            ev.set(job)
             return job.jobid
 
         try:
@@ -311,8 +315,14 @@ class workq:
             self._waiters.append((channels, ev))
             try:
                 j = ev.get()
+            except BaseException:
+                # e.g. the client went away while waiting: a job that was
+                # handed over in the meantime goes back to the queue
+                if ev.successful():
+                    self.pushjob(ev.value)
+                raise
             finally:
-                self._waiters.remove((channels, ev))
+                self._waiters = [w for w in self._waiters if w[1] is not ev]
 
         return j
 
